@@ -278,6 +278,15 @@ impl Config {
         if let Some(mode) = self.ssl_mode {
             cfg.ssl_mode(mode.into());
         }
+        if let Some(target_session_attrs) = self.target_session_attrs {
+            cfg.target_session_attrs(target_session_attrs.into());
+        }
+        if let Some(channel_binding) = self.channel_binding {
+            cfg.channel_binding(channel_binding.into());
+        }
+        if let Some(load_balance_hosts) = self.load_balance_hosts {
+            cfg.load_balance_hosts(load_balance_hosts.into());
+        }
         Ok(cfg)
     }
 
